@@ -19,6 +19,13 @@ package cmd
 //@   property C09,C11
 //@   ensures errSeen(packaging.LoadPackage) || errSeen(updatePackageInfoFromArgs) || errSeen(validatePackage) ==> result1 != nil
 
+// koanf's struct provider (structs.Provider) walks the manifest object graph field by field and does not terminate
+// on a cycle (library fact): the caller must hand over a manifest in which no previous version is the package itself.
+//@ func updatePackageInfoFromArgs
+//@   property C10
+//@   requires packageInfo != nil
+//@   requires manifest_graph_is_acyclic: forall k in 0..len(packageInfo.Versions) :: packageInfo.Versions[k].Package != packageInfo
+
 // ---- C09 / C11: errors of every nested parse / validate / evolution step propagate -----------------------
 //@ func validatePackage
 //@   property C09,C11
